@@ -1,0 +1,15 @@
+//go:build !verif
+
+// Package verifhook provides named hook points for the model-based verification
+// harness kept outside this repository. Without the `verif` build tag every
+// function of this package is an empty inlinable stub.
+package verifhook
+
+// Enabled reports whether hooks are compiled in.
+const Enabled = false
+
+// Set does nothing without the verif build tag.
+func Set(func(name string, args ...any)) {}
+
+// Point does nothing without the verif build tag.
+func Point(string, ...any) {}
